@@ -28,6 +28,8 @@ func runC08(p *eng.Prog, r *eng.Report, tier string) {
 	// the whole element (E-dec3/E-dec6), otherwise Serve ends with a decoding error
 	nDec := decoderLoopConsumes(c, "C08.10", func(f *eng.Fn) bool { return strings.HasPrefix(f.Short, "stream.") })
 	c.r.Floor("C08.10", "start-element arms in the token loops of the stream package", nDec, 1)
+	// C08.11 only the peer's closing tag ends Serve without an error
+	c07ServeEOFAs(c, "C08.11")
 	// the serve loop goes on delivering elements (and ends without an error at
 	// the closing tag) after the documented shutdown sequence replaced the
 	// input context
@@ -466,9 +468,22 @@ func c08ReaderAs(c *cx, id string) {
 	}
 	c.r.Floor(id, "io.EOF returns", neof, 1)
 	// framing element outside negotiation
-	for _, ce := range g.EdgesMatching("eq(*.Name.Space,internal/stream.wsNamespace)") {
-		_ = ce
+	// (the framing namespace only means something on WebSocket sessions: on a
+	// TCP session an element in that namespace - a forwarded <close/> inside a
+	// stanza - is payload like any other)
+	nfr := 0
+	for _, rs := range g.Returns {
+		if len(rs.Results) != 2 || f.Norm(rs.Results[1], nil) != "var:internal/stream.ErrUnexpectedRestart" {
+			continue
+		}
+		pt, _ := g.Where(rs)
+		if okw, _ := g.Dominated(pt, "eq(*.Name.Space,internal/stream.wsNamespace)"); !okw {
+			continue
+		}
+		nfr++
+		c.dom(id, f, rs, "framing element taken for a restart", []string{"recv.ws", "!recv.negotiating"})
 	}
+	c.r.Floor(id, "restart errors for framing elements", nfr, 1)
 	// depth bookkeeping
 	inc, dec := 0, 0
 	for _, w := range f.FieldWrites("internal/stream.reader.depth") {
